@@ -64,6 +64,11 @@ type replay struct {
 	drift   []string
 	timeout bool
 	failed  map[string]bool
+	// the storage engine admits one writing transaction at a time (bbolt): a
+	// transaction with a writing access holds this from its first access until
+	// its last access returned (its cache commit may still be pending), also
+	// when the transactions run freely after a forced prefix
+	dbw sync.Mutex
 }
 
 func (rp *replay) note(f string, a ...any) { rp.drift = append(rp.drift, fmt.Sprintf(f, a...)) }
@@ -91,9 +96,19 @@ func (rp *replay) runTx(t string, prog []Access, gated bool, cfail bool) {
 	rp.txOf[tx] = t
 	rp.mu.Unlock()
 	txFailed := false
+	isWriter, holdsDB := false, false
+	for _, a := range prog {
+		if !a.RO {
+			isWriter = true
+		}
+	}
 	for i, a := range prog {
 		if gated {
 			rp.sched.Yield(t, "with")
+		}
+		if isWriter && !holdsDB {
+			rp.dbw.Lock()
+			holdsDB = true
 		}
 		rp.tw.Emit("WithStart", M{"t": t, "i": i + 1, "name": a.Name, "ro": b2i(a.RO)})
 		err := tx.With(a.Name, a.RO, func() (cache.Cachable, error) {
@@ -130,6 +145,9 @@ func (rp *replay) runTx(t string, prog []Access, gated bool, cfail bool) {
 			rp.mu.Unlock()
 		}
 		rp.tw.Emit("WithReturn", M{"t": t, "err": b2i(err != nil)})
+	}
+	if holdsDB {
+		rp.dbw.Unlock()
 	}
 	if gated {
 		rp.sched.Yield(t, "commit")
